@@ -37,6 +37,7 @@ type probe struct {
 	seed     uint64
 	errEvery int // every k-th execution returns an error (0 = never)
 	slowAt   int // this execution takes long (0 = none)
+	panicAt  int // this execution ends in a panic (0 = none)
 }
 
 var errProbe = errors.New("probe failure")
@@ -61,6 +62,9 @@ func (p *probe) run() (int, error) {
 	p.ends = append(p.ends, kit.Stamp())
 	p.results = append(p.results, res)
 	p.mu.Unlock()
+	if k == p.panicAt {
+		panic(fmt.Errorf("exec %d panics: %w", k, errProbe))
+	}
 	if p.errEvery > 0 && k%p.errEvery == 0 {
 		return res, fmt.Errorf("exec %d: %w", k, errProbe)
 	}
@@ -211,6 +215,11 @@ func c15Counting(r *kit.Run, idx int64, rng *rand.Rand, kind wrapKind) {
 	if kind == wLimit && rng.IntN(2) == 0 {
 		p.slowAt = limitN // callers arrive while the final execution is still running
 	}
+	if kind == wOnce && rng.IntN(4) == 0 {
+		// the single execution ends in a panic (which its caller recovers): it
+		// still was the single execution
+		p.panicAt, p.errEvery = 1, 0
+	}
 	ws := wrappers(kind, limitN, p)
 	w := ws[rng.IntN(len(ws))]
 	callers := 1 + rng.IntN(32)
@@ -257,6 +266,20 @@ func c15Counting(r *kit.Run, idx int64, rng *rand.Rand, kind wrapKind) {
 				bar.Wait()
 				for j := 0; j < per; j++ {
 					t0 := kit.Stamp()
+					if p.panicAt > 0 {
+						func() {
+							defer func() {
+								if pv := recover(); pv != nil {
+									if e, ok := pv.(error); !ok || !errors.Is(e, errProbe) {
+										panic(pv)
+									}
+								}
+							}()
+							_, _ = w.call(ctx)
+						}()
+						recs[c] = append(recs[c], callRec{call: t0, ret: kit.Stamp()})
+						continue
+					}
 					v, err := w.call(ctx)
 					recs[c] = append(recs[c], callRec{call: t0, ret: kit.Stamp(), val: v, err: err})
 				}
@@ -267,7 +290,7 @@ func c15Counting(r *kit.Run, idx int64, rng *rand.Rand, kind wrapKind) {
 	calls := callers * per
 	execs := int(p.execs.Load())
 	desc := map[string]any{"wrapper": w.name, "callers": callers, "calls_per_caller": per, "limit_n": limitN, "speed": p.speed.String(),
-		"error_every": p.errEvery, "gomaxprocs": procs, "executions": execs}
+		"error_every": p.errEvery, "execution_panics": p.panicAt > 0, "gomaxprocs": procs, "executions": execs}
 	viol := func(kind, detail string) { r.Violation("C15/"+w.name+"/"+kind, idx, desc, detail, nil) }
 	if pm := panicMsg.Load(); pm != nil {
 		viol("panic", pm.(string))
@@ -288,6 +311,9 @@ func c15Counting(r *kit.Run, idx int64, rng *rand.Rand, kind wrapKind) {
 					viol("returned-before-execution-finished", fmt.Sprintf("caller %d call %d returned at stamp %d, the single execution ended at %d", c, j, rc.ret, end))
 					return
 				}
+				if p.panicAt > 0 {
+					continue
+				}
 				if c == 0 && j == 0 {
 					firstVal, firstErr = rc.val, rc.err
 				}
@@ -296,6 +322,9 @@ func c15Counting(r *kit.Run, idx int64, rng *rand.Rand, kind wrapKind) {
 					return
 				}
 			}
+		}
+		if p.panicAt > 0 {
+			break
 		}
 		if w.hasValue && firstVal != 11 {
 			viol("wrong-result", fmt.Sprintf("callers observed %d, the execution produced 11", firstVal))
@@ -367,7 +396,7 @@ func c15Counting(r *kit.Run, idx int64, rng *rand.Rand, kind wrapKind) {
 		}
 	}
 	if callers >= 2 {
-		r.Distinct(fmt.Sprintf("%s|c=%s|per=%d|n=%d|sp=%s|p=%d|e=%d", w.name, lenClass(callers), per, limitN, p.speed, procs, p.errEvery))
+		r.Distinct(fmt.Sprintf("%s|c=%s|per=%d|n=%d|sp=%s|p=%d|e=%d|pn=%d", w.name, lenClass(callers), per, limitN, p.speed, procs, p.errEvery, p.panicAt))
 	}
 	if r.WantSample() && callers > 3 {
 		r.Sample(desc)
@@ -699,6 +728,17 @@ func c15Background(r *kit.Run, idx int64, rng *rand.Rand) {
 	r.Eval()
 	done := make(chan struct{})
 	var panicMsg atomic.Value
+	// a second, impatient waiter on the same group: it gives up (its own
+	// context ends) while the work is still going on; the patient one stays
+	impDelay, impOn := rng.IntN(12), rng.IntN(2) == 0
+	impatient := func(wait func(context.Context)) {
+		if !impOn {
+			return
+		}
+		octx, ocancel := context.WithCancel(context.Background())
+		go wait(octx)
+		go func() { kit.Yields(impDelay); ocancel() }()
+	}
 	kit.WithProcs(procs, func() {
 		go func() {
 			defer close(done)
@@ -725,11 +765,13 @@ func c15Background(r *kit.Run, idx int64, rng *rand.Rand) {
 			case 5:
 				expectExecs = n
 				w := worker.StartGroup(ctx, n)
+				impatient(func(octx context.Context) { _ = w(octx) })
 				waitErr = w(ctx)
 			case 6:
 				expectExecs = n
 				wg := &fun.WaitGroup{}
 				operation.StartGroup(ctx, wg, n)
+				impatient(wg.Wait)
 				wg.Wait(ctx)
 			case 7:
 				pr := fun.Processor[int](func(context.Context, int) error { return body() })
